@@ -247,6 +247,14 @@ def check_C06(tier, seed):
         fams = ["fanout", "chain", "mixed", "fanout", "zerodelay", "chain", "ties"]
         c.run(_models(tier, seed, fams, 7, 30), 5 if tier == "quick" else 12, emphasis=em)
         c.run(_models(tier, seed + 50, fams + ["burst"], 4, 16), 6 if tier == "quick" else 14, emphasis=DIST_EM)
+        # systematic single-delay exploration around the accesses of the cancellation handshake: a thread is kept off the processor right after
+        # its n-th fetch_add on a flag word / between the load and the CAS of its n-th insertion, for every n of a window
+        pts = (("flag", 30), ("precas", 30)) if tier == "quick" else (("flag", 30), ("precas", 30), ("push", 30), ("drain", 30), ("flag", 200))
+        for k, fam in enumerate(["fanout", "zerodelay"] if tier == "quick" else ["fanout", "zerodelay", "mixed", "ties", "chain"]):
+            for pt, ln in pts:
+                c.sweep_phase(fam, (seed + 60) * 100 + k,
+                              [{"threads": 2, "ckpt": 2, "batch": 1, "period": 100000, "sseed": 11 + tag, "switch": "1/4", "policy": 0, "skew": 0, "budget": 400000,
+                                "delay": "%d:%s:%d:%d" % (tag, pt, n, ln)} for tag in (0, 1) for n in (range(1, 41) if tier == "quick" else range(1, 121))])
         return c.finish()
     finally:
         c.close()
